@@ -199,6 +199,11 @@ func execExit(r *RNG, c *Case) {
 			args = append(args, strings.ReplaceAll(a, "{dir}", dir))
 		}
 		c.Tag("devfull-" + c.Get("sub"))
+		if atoi(c.Get("setupseed"))%2 == 0 {
+			// the full device named with -o instead of being the standard output: the write fails, the close does not
+			args = append(args, "-o", "/dev/full")
+			c.Tag("devfull-by-outfile-option")
+		}
 	default:
 		execExitC18(c, dir)
 		return
